@@ -33,10 +33,9 @@ class SCSICommand(metaclass=ExMETA):
         :param dataout_alloclen: integer representing the size of the data_out buffer
         :param datain_alloclen: integer representing the size of the data_in buffer
         """
-        # we need the _cdb_bits and _cdb values in staticmethods so we have to set it
-        # on the class and not on the instance of the class. that might be wrong ...
-        SCSICommand._cdb_bits = self._cdb_bits
-        SCSICommand._cdb = SCSICommand.init_cdb(opcode)
+        # marshall_cdb/unmarshall_cdb are called on the class, so the cdb length is kept
+        # on the command's own class (never on the shared base class)
+        type(self)._cdb = SCSICommand.init_cdb(opcode)
         self.dataout = bytearray(dataout_alloclen)
         self.datain = bytearray(datain_alloclen)
         self.result = {}
@@ -217,20 +216,20 @@ class SCSICommand(metaclass=ExMETA):
         for b in self._cdb:
             print("0x%02X " % b)
 
-    @staticmethod
-    def marshall_cdb(cdb):
+    @classmethod
+    def marshall_cdb(cls, cdb):
         """
         Marshall an SCSICommand cdb
 
         :param cdb: a dict with key:value pairs representing a code descriptor block
         :return result: a byte array representing a code descriptor block
         """
-        result = bytearray(len(SCSICommand._cdb))
-        encode_dict(cdb, SCSICommand._cdb_bits, result)
+        result = bytearray(len(cls._cdb))
+        encode_dict(cdb, cls._cdb_bits, result)
         return result
 
-    @staticmethod
-    def unmarshall_cdb(cdb):
+    @classmethod
+    def unmarshall_cdb(cls, cdb):
         """
         Unmarshall an SCSICommand cdb
 
@@ -238,7 +237,7 @@ class SCSICommand(metaclass=ExMETA):
         :return result: a dict
         """
         result = {}
-        decode_bits(cdb, SCSICommand._cdb_bits, result)
+        decode_bits(cdb, cls._cdb_bits, result)
         return result
 
     def build_cdb(self, **kwargs):
@@ -249,7 +248,7 @@ class SCSICommand(metaclass=ExMETA):
         :return: a byte array representing a code descriptor block
         """
         cdb = {key: kwargs[key] for key in kwargs.keys()}
-        return SCSICommand.marshall_cdb(cdb)
+        return type(self).marshall_cdb(cdb)
 
     def unmarshall(self, **kwargs):
         """
